@@ -1446,15 +1446,39 @@ def stream_corners(chk, i, rng):
         ca["path"] = lambda Xv, yv: (lambda r: list(r[0]) + [np.asarray(v, dtype=float) for v in r[1:]])(impl.make(name, **named, **kw).path(Xv, yv, alpha_multiplier=3.0, keep_threshold=1.0, min_features=max(1, d - 1), max_patience=1))
         cb["path"] = lambda Xv, yv: (lambda r: list(r[0]) + [np.asarray(v, dtype=float) for v in r[1:]])(impl.make(name, **pre, **kw).path(Xv, yv, alpha_multiplier=3.0, keep_threshold=1.0, min_features=max(1, d - 1), max_patience=1))
     Xb, Kb = X.copy(), K.copy()
-    for ep in ca:
-        ra, rb = observe(lambda: ca[ep](X, None)), observe(lambda: cb[ep](X, K))
-        if not agree(ra, rb, 1e-7 if ep == "path" else 1e-9):
-            observe_or_fail(chk, f"corners:{corner}:{name}.{ep}", f"{name}.{ep} at corner {corner}: named {str(ra)[:140]} vs precomputed {str(rb)[:140]}", dict(replay, entry=ep))
-        chk.dist[f"corners:{corner}:{ra[0] if ra[0] == 'ok' else 'raises'}"] += 1
-    ra = observe(lambda: fa_(X, None)["score"](X, None))
-    rb = observe(lambda: fb_(X, K)["score"](X, K))
-    if not agree(ra, rb, 1e-7):
-        observe_or_fail(chk, f"corners:{corner}:{name}.score", f"{name}.score at corner {corner}: named {ra} vs precomputed {rb}", dict(replay, entry="score"))
+    # Ill-conditioned corner: a (numerically) constant affinity or a vanishing objective makes every MMD / Wasserstein distance
+    # zero in exact arithmetic; gradients and scores are then decided by rounding residues under a square root, which differ
+    # between the named route (kernel recomputed per block) and the precomputed one.  There only the outcome class, shapes and
+    # finiteness are compared - and, exactly, the affinity the objective RECEIVED against scikit-learn's (the forwarding itself).
+    sa = observe(lambda: fa_(X, None)["score"](X, None))
+    sb = observe(lambda: fb_(X, K)["score"](X, K))
+    ill = corner == "duplicates" or float(K.max() - K.min()) <= 1e-12 * float(np.max(np.abs(K))) \
+        or (sa[0] == "ok" and abs(float(sa[1][0])) < 1e-6)
+
+    def same_class(ra, rb):
+        if ra[0] != "ok" or rb[0] != "ok":
+            return ra[0] == rb[0]
+        return len(ra[1]) == len(rb[1]) and all(u.shape == v.shape and bool(np.all(np.isfinite(u)) == np.all(np.isfinite(v))) for u, v in zip(ra[1], rb[1]))
+    with Recording() as rec:
+        for ep in ca:
+            ra, ma = observe(lambda: ca[ep](X, None)), rec.take()
+            rb, mb = observe(lambda: cb[ep](X, K)), rec.take()
+            ok = same_class(ra, rb) if ill else agree(ra, rb, 1e-7 if ep == "path" else 1e-9)
+            if not ok:
+                observe_or_fail(chk, f"corners:{corner}:{name}.{ep}", f"{name}.{ep} at corner {corner}: named {str(ra)[:140]} vs precomputed {str(rb)[:140]}", dict(replay, entry=ep))
+            # full-size blocks that reached the objective hold exactly the entries of the scikit-learn matrix (batches permute rows and columns together)
+            for route, mats in (("named", ma), ("precomputed", mb)):
+                for M in mats:
+                    if M is not None and np.shape(M) == K.shape and not close(np.sort(np.asarray(M, dtype=float), axis=None), np.sort(K, axis=None))[1]:
+                        observe_or_fail(chk, f"corners:{corner}:{name}.{ep}:affinity", f"{name}({route}).{ep} at corner {corner}: the affinity that reached the objective is not the scikit-learn matrix", dict(replay, entry=ep, route=route))
+                        break
+            chk.dist[f"corners:{corner}:{ra[0] if ra[0] == 'ok' else 'raises'}"] += 1
+        if rec.errors:
+            chk.fail("harness-error:corners:recording", f"the recording wrappers failed: {rec.errors[:3]}", replay)
+    if not (same_class(sa, sb) if ill else agree(sa, sb, 1e-7)):
+        observe_or_fail(chk, f"corners:{corner}:{name}.score", f"{name}.score at corner {corner}: named {sa} vs precomputed {sb}", dict(replay, entry="score"))
+    if ill:
+        chk.dist["corners:ill-conditioned(outcome+received affinity only)"] += 1
     if X.tobytes() != Xb.tobytes() or K.tobytes() != Kb.tobytes():
         observe_or_fail(chk, f"corners:{name}:argument-modified", f"{name} modified X or the precomputed matrix", replay)
     chk.traces += 1
